@@ -442,7 +442,7 @@ class PatchedCounts(BinwisePatchwiseArray):
         if isinstance(item, int):
             item = [item]
 
-        return type(self)(self.binning, self.counts[:, item, item], auto=self.auto)
+        return type(self)(self.binning, self.counts[:, item][:, :, item], auto=self.auto)
 
     def get_array(self) -> NDArray:
         return self.counts
